@@ -91,6 +91,11 @@ func C02_Struct() {
 	n := 4
 	k := env.Param("signers")
 	e := newC02Env(n)
+	if env.ParamOr("warmup", 0) == 1 {
+		// two calls per run: concrete equal weights (with symbolic weights every query of both calls carries the
+		// 64-bit division terms of the threshold and z3 spends its budget on them; the first run took 20 min)
+		e = newC02EnvW(n, []uint64{1, 1, 1, 1})
+	}
 	soft := env.NondetBool("soft")
 	e.mem.FailForProof = env.NondetBool("membership_error")
 
